@@ -40,8 +40,6 @@ Proof. unfold cnt. simpl. destruct (Nat.eq_dec a x); lia. Qed.
 Lemma cnt_nil x : cnt [] x = 0.
 Proof. reflexivity. Qed.
 
-Lemma cnt_seq_S s len x : cnt (seq s (S len)) x = cnt [s] x + cnt (seq (S s) len) x.
-Proof. cbn [seq]. apply cnt_cons. Qed.
 
 (** * gd on a node is gd_list on the children followed by "merge all" *)
 Lemma gd_node legacy ts depth st :
@@ -137,6 +135,9 @@ Proof. unfold cnt, cnt1. simpl. destruct (Nat.eq_dec a x); lia. Qed.
 Lemma cnt_rev l x : cnt (rev l) x = cnt l x.
 Proof. apply perm_cnt. apply Permutation_sym, Permutation_rev. Qed.
 
+Lemma cnt_seq_S s len x : cnt (seq s (S len)) x = cnt1 s x + cnt (seq (S s) len) x.
+Proof. cbn [seq]. apply cnt_cons1. Qed.
+
 Ltac splits := repeat match goal with |- _ /\ _ => split end.
 Ltac cnt_norm := repeat (progress (rewrite ?cnt_app, ?cnt_cons1, ?cnt_nil in * )).
 
@@ -172,10 +173,10 @@ Proof.
     { rewrite app_length. simpl. lia. }
     exists (r :: R), idx, sf. cbn [merge_rest]. rewrite E.
     replace (D ++ r :: R) with ((D ++ [r]) ++ R) by (rewrite <- app_assoc; reflexivity).
-    splits; try assumption.
+    splits; try assumption; [reflexivity|].
     apply perm_cnt. intros x. rewrite perm_cnt in Hp. specialize (Hp x).
-    cbn [flat_map children length]. rewrite cnt_seq_S. unfold r, r_left, r_right. cbn [fst snd].
-    cnt_norm. lia.
+    cbn [flat_map length]. change (children r) with [index; k].
+    cnt_norm. rewrite cnt_seq_S. lia.
 Qed.
 
 Lemma size_get_cons k v sz x : size_get ((k, v) :: sz) x = if Nat.eqb x k then v else size_get sz x.
@@ -210,9 +211,255 @@ Proof.
   exists (r :: R), idx, sf. fold r. rewrite E.
   replace (D ++ r :: R) with ((D ++ [r]) ++ R) by (rewrite <- app_assoc; reflexivity).
   splits; try assumption.
+  - reflexivity.
   - rewrite !app_length. simpl. lia.
   - apply perm_cnt. intros x. rewrite perm_cnt in Hp. specialize (Hp x). specialize (Hrc x).
-    cbn [flat_map children length]. rewrite cnt_seq_S. unfold r, r_left, r_right. cbn [fst snd].
-    replace (S (n + length D)) with (S (S index)) by lia. replace (n + length D) with (S index) by lia.
-    cnt_norm. lia.
+    cbn [flat_map length]. change (children r) with [i; j].
+    replace (n + length D) with (S index) by lia.
+    cnt_norm. rewrite cnt_seq_S. lia.
 Qed.
+
+(** * The recursion *)
+Definition st_ok (n : nat) (D : dendrogram) (index : nat) (sz : sizes) : Prop :=
+  index + 1 = n + length D /\ all_good n D /\ (forall k, k < n -> size_get sz k = 1).
+
+Definition hd (depth : nat) : Q := inject_Z (- Z.of_nat depth).
+
+Lemma hd_S depth : (hd (S depth) <= hd depth)%Q.
+Proof. unfold hd. rewrite <- Zle_Qle. lia. Qed.
+
+(** What one call [gd false t depth (index, sz)] does to the dendrogram built so far. *)
+Definition gd_post (n : nat) (t : ptree) : Prop :=
+  forall depth D index sz, st_ok n D index sz ->
+  exists R l index' sz',
+    gd false t depth (index, sz) = Ok (R, l, (index', sz')) /\
+    st_ok n (D ++ R) index' sz' /\
+    (forall k, k < n + length D -> size_get sz' k = size_get sz k) /\
+    lab_ok n (D ++ R) sz' (hd depth) l /\
+    Permutation (flat_map children R ++ [l]) (tleaves t ++ seq (n + length D) (length R)).
+
+Lemma gd_list_spec n ts : Forall (gd_post n) ts ->
+  forall depth D index sz, st_ok n D index sz ->
+  exists R ls index' sz',
+    gd_list false ts depth (index, sz) = Ok (R, ls, (index', sz')) /\
+    st_ok n (D ++ R) index' sz' /\
+    (forall k, k < n + length D -> size_get sz' k = size_get sz k) /\
+    Forall (lab_ok n (D ++ R) sz' (hd depth)) ls /\
+    length ls = length ts /\
+    Permutation (flat_map children R ++ ls) (flat_map tleaves ts ++ seq (n + length D) (length R)).
+Proof.
+  induction 1 as [|c cs Hc Hcs IH]; intros depth D index sz Hst.
+  - exists [], [], index, sz. rewrite app_nil_r. splits; try assumption; try reflexivity.
+    constructor.
+  - destruct (Hc depth D index sz Hst) as (R1 & l1 & i1 & sz1 & E1 & Hst1 & Hx1 & Hl1 & Hp1).
+    destruct (IH depth (D ++ R1) i1 sz1 Hst1) as (R2 & ls & i2 & sz2 & E2 & Hst2 & Hx2 & Hl2 & Hlen & Hp2).
+    exists (R1 ++ R2), (l1 :: ls), i2, sz2. cbn [gd_list]. rewrite E1, E2. rewrite app_assoc.
+    splits; try assumption.
+    + reflexivity.
+    + intros k Hk. rewrite Hx2 by (rewrite app_length; lia). now apply Hx1.
+    + constructor; [|assumption]. unfold lab_ok. rewrite Hx2 by (destruct Hl1; lia).
+      now apply cl_ok_app.
+    + simpl. now rewrite Hlen.
+    + apply perm_cnt. intros x. rewrite perm_cnt in Hp1, Hp2. specialize (Hp1 x). specialize (Hp2 x).
+      rewrite flat_map_app, app_length, seq_app, <- Nat.add_assoc. cbn [flat_map]. rewrite app_length in Hp2.
+      cnt_norm. lia.
+Qed.
+
+Lemma gd_spec n t : Forall (fun i => i < n) (tleaves t) -> tree_shape t = true -> gd_post n t.
+Proof.
+  induction t as [i|ts IH] using ptree_ind2; intros Hlv Hsh depth D index sz Hst.
+  - (* leaf: no row, the label is the leaf *)
+    cbn [tleaves] in Hlv. inversion Hlv as [|? ? Hi _]; subst.
+    exists [], i, index, sz. rewrite app_nil_r. assert (Hst' := Hst). destruct Hst' as (Hs1 & Hs2 & Hs3).
+    splits; try assumption; try reflexivity.
+    unfold lab_ok, cl_ok. rewrite Hs3, csize_leaf by assumption. splits; [lia | reflexivity |].
+    unfold child_height_ok. apply Nat.ltb_lt in Hi. now rewrite Hi.
+  - cbn [tleaves] in Hlv. cbn [tree_shape] in Hsh. apply andb_true_iff in Hsh. destruct Hsh as [Hn2 Hsh].
+    apply Nat.leb_le in Hn2. rewrite forallb_forall in Hsh. rewrite Forall_flat_map in Hlv.
+    assert (Hposts : Forall (gd_post n) ts).
+    { rewrite Forall_forall in *. intros c Hc. apply IH; auto. }
+    destruct (gd_list_spec n ts Hposts (S depth) D index sz Hst)
+      as (R1 & ls & i1 & sz1 & E1 & Hst1 & Hx1 & Hl1 & Hlen & Hp1).
+    destruct Hst1 as (Hs1 & Hs2 & Hs3).
+    assert (Hl1' : Forall (lab_ok n (D ++ R1) sz1 (hd depth)) ls).
+    { eapply Forall_impl; [|exact Hl1]. intros a Ha. apply (cl_ok_mono _ _ (hd (S depth))); [apply hd_S | exact Ha]. }
+    destruct (merge_all_spec n (hd depth) sz1 ls (D ++ R1) i1 Hs1 Hs2 ltac:(lia) Hl1')
+      as (R2 & idx & sf & E2 & Hi2 & Hgt & Hg2 & Hcl2 & Hp2).
+    exists (R1 ++ R2), idx, idx, ((idx, sf) :: sz1).
+    rewrite gd_node, E1. fold (hd depth). rewrite E2. rewrite app_assoc.
+    assert (Hidx : n + length D <= idx) by (rewrite !app_length in *; lia).
+    unfold st_ok. splits; try assumption.
+    + reflexivity.
+    + intros k Hk. rewrite size_get_cons. replace (Nat.eqb k idx) with false by (symmetry; apply Nat.eqb_neq; lia).
+      now apply Hs3.
+    + intros k Hk. rewrite size_get_cons. replace (Nat.eqb k idx) with false by (symmetry; apply Nat.eqb_neq; lia).
+      now apply Hx1.
+    + unfold lab_ok. rewrite size_get_cons, Nat.eqb_refl. assumption.
+    + apply perm_cnt. intros x. rewrite perm_cnt in Hp1, Hp2. specialize (Hp1 x). specialize (Hp2 x).
+      rewrite flat_map_app, app_length, seq_app, <- Nat.add_assoc. cbn [tleaves]. rewrite app_length in Hp2.
+      cnt_norm. lia.
+Qed.
+
+(** * Top level *)
+Lemma tleaves_nonempty t : tree_shape t = true -> tleaves t <> [].
+Proof.
+  induction t as [i|ts IH] using ptree_ind2; intros Hsh; [discriminate|].
+  cbn [tree_shape] in Hsh. apply andb_true_iff in Hsh. destruct Hsh as [Hn2 Hsh]. apply Nat.leb_le in Hn2.
+  destruct ts as [|c cs]; [simpl in Hn2; lia|].
+  cbn [forallb] in Hsh. apply andb_true_iff in Hsh. destruct Hsh as [Hc _].
+  inversion IH as [|? ? IHc _]; subst. cbn [tleaves flat_map]. intros E. apply app_eq_nil in E.
+  destruct E as [E _]. now apply IHc.
+Qed.
+
+Lemma get_index_perm n t : 1 <= n -> Permutation (tleaves t) (seq 0 n) -> get_index t = n - 1.
+Proof.
+  intros Hn Hp. unfold get_index. change (fold_right Nat.max 0 (tleaves t)) with (list_max (tleaves t)).
+  apply Nat.le_antisymm.
+  - apply list_max_le. apply Forall_forall. intros x Hx. apply (Permutation_in _ Hp) in Hx.
+    apply in_seq in Hx. lia.
+  - apply In_le_list_max. apply (Permutation_in _ (Permutation_sym Hp)). apply in_seq. lia.
+Qed.
+
+Lemma children_length R : length (flat_map children R) = 2 * length R.
+Proof. induction R as [|r R IH]; simpl; lia. Qed.
+
+Lemma all_good_hmono n D : all_good n D -> hmono n D = true.
+Proof.
+  intros Hg. unfold hmono. apply forallb_forall. intros r Hr. destruct (In_nth_error _ _ Hr) as [t Ht].
+  destruct (Hg t r Ht) as (_ & _ & _ & H1 & H2). now rewrite H1, H2.
+Qed.
+
+Theorem get_dendrogram_valid : forall n t, tree_ok n t ->
+  exists D, get_dendrogram t = Ok (D, 2 * n - 2) /\ valid n D = true /\ hmono n D = true /\
+            (forall k r, nth_error D k = Some r -> r_size r = length (leaves n D (n + k))).
+Proof.
+  intros n t (Hsh & Hperm & ts & Et).
+  assert (Hn : 1 <= n).
+  { destruct n; [|lia]. simpl in Hperm. apply Permutation_sym, Permutation_nil in Hperm.
+    now apply tleaves_nonempty in Hsh. }
+  assert (Hlt : Forall (fun i => i < n) (tleaves t)).
+  { apply Forall_forall. intros x Hx. apply (Permutation_in _ Hperm) in Hx. apply in_seq in Hx. lia. }
+  assert (Hst : st_ok n [] (get_index t) []).
+  { rewrite (get_index_perm n t Hn Hperm). split; [simpl; lia|]. split; [|reflexivity].
+    intros k r Hk. destruct k; discriminate. }
+  destruct (gd_spec n t Hlt Hsh 0 [] (get_index t) [] Hst) as (D & l & idx & sz & E & Hst' & _ & _ & Hp).
+  simpl app in Hst'. destruct Hst' as (Hidx & Hg & _). simpl length in Hp. rewrite Nat.add_0_r in Hp.
+  assert (Hlen : S (length D) = n).
+  { assert (H1 := Permutation_length Hp). assert (H2 := Permutation_length Hperm).
+    rewrite !app_length, children_length, !seq_length in *. simpl in H1. lia. }
+  assert (Hwf : wf_dend n D).
+  { split.
+    - exact Hlen.
+    - assert (Hnd : NoDup (flat_map children D ++ [l])).
+      { apply (Permutation_NoDup (Permutation_sym Hp)).
+        apply (Permutation_NoDup (l := seq 0 n ++ seq n (length D))).
+        - apply Permutation_app_tail. now apply Permutation_sym.
+        - change n with (0 + n) at 2. rewrite <- seq_app. apply seq_NoDup. }
+      now apply NoDup_app_remove_aux in Hnd.
+    - intros k r Hk. destruct (Hg k r Hk) as (H1 & H2 & _). split; assumption.
+    - intros k r Hk. destruct (Hg k r Hk) as (_ & _ & H3 & _). exact H3. }
+  assert (Hv := wf_valid n D Hwf).
+  exists D. split; [|split; [exact Hv|split; [now apply all_good_hmono | now apply valid_size_leaves]]].
+  subst t. unfold get_dendrogram, get_dendrogram_gen.
+  destruct ts as [|a [|b ts']]; [discriminate Hsh | discriminate Hsh |].
+  match goal with |- match ?g with _ => _ end = _ =>
+    assert (E' : g = Ok (D, l, (idx, sz))) by exact E; rewrite E' end.
+  f_equal. f_equal. lia.
+Qed.
+
+(** Non-vacuity: the tree [[[0], [1]], [2], [3]] (a two-way merge below a three-way merge). *)
+Example get_dendrogram_example :
+  get_dendrogram (PNode [PNode [PLeaf 0; PLeaf 1]; PLeaf 2; PLeaf 3])
+  = Ok ([(1, 0, (-1 # 1)%Q, 2); (3, 2, 0%Q, 2); (5, 4, 0%Q, 4)], 6).
+Proof. vm_compute. reflexivity. Qed.
+
+Example get_dendrogram_example_valid :
+  valid 4 [(1, 0, (-1 # 1)%Q, 2); (3, 2, 0%Q, 2); (5, 4, 0%Q, 4)] = true.
+Proof. vm_compute. reflexivity. Qed.
+
+(** * The code before fix fb47193f: [s += 1] for every further child of a multi-way merge *)
+Theorem get_dendrogram_legacy_refuted : exists n t D idx,
+  tree_ok n t /\ get_dendrogram_legacy t = Ok (D, idx) /\ valid n D = false.
+Proof.
+  exists 4, (PNode [PNode [PLeaf 0; PLeaf 1]; PLeaf 2; PLeaf 3]).
+  exists [(1, 0, (-1 # 1)%Q, 2); (3, 2, 0%Q, 2); (5, 4, 0%Q, 3)], 6.
+  split; [|split].
+  - split; [reflexivity|]. split; [apply Permutation_refl | eexists; reflexivity].
+  - vm_compute. reflexivity.
+  - vm_compute. reflexivity.
+Qed.
+
+(** * The height shift of LouvainHierarchy.fit / LouvainIteration.fit
+
+    Validity only looks at the (left, right, size) columns; [hmono] survives any map that shifts all the heights
+    by the same amount. *)
+Definition keeps_cols (g : drow -> drow) : Prop :=
+  forall x, r_left (g x) = r_left x /\ r_right (g x) = r_right x /\ r_size (g x) = r_size x.
+
+Lemma csize_map g n D c : keeps_cols g -> csize n (map g D) c = csize n D c.
+Proof.
+  intros Hg. unfold csize. destruct (Nat.ltb c n); [reflexivity|].
+  destruct (nth_error D (c - n)) as [r|] eqn:E.
+  - rewrite (nth_error_nth_d _ _ _ drow0 E).
+    assert (E' : nth_error (map g D) (c - n) = Some (g r)) by (rewrite nth_error_map, E; reflexivity).
+    rewrite (nth_error_nth_d _ _ _ drow0 E'). apply Hg.
+  - apply nth_error_None in E. rewrite !nth_overflow by (rewrite ?map_length; exact E). reflexivity.
+Qed.
+
+Lemma children_map g D : keeps_cols g -> flat_map children (map g D) = flat_map children D.
+Proof.
+  intros Hg. induction D as [|r D IH]; [reflexivity|]. cbn [map flat_map]. rewrite IH. unfold children.
+  destruct (Hg r) as (-> & -> & _). reflexivity.
+Qed.
+
+Lemma wf_dend_map g n D : keeps_cols g -> wf_dend n D -> wf_dend n (map g D).
+Proof.
+  intros Hg [Hlen Hnd Hlt Hsz]. split.
+  - now rewrite map_length.
+  - now rewrite children_map.
+  - intros t r' Hr'. rewrite nth_error_map in Hr'. destruct (nth_error D t) as [r|] eqn:E; [|discriminate].
+    simpl in Hr'. inversion Hr'; subst r'. destruct (Hg r) as (-> & -> & _). now apply Hlt.
+  - intros t r' Hr'. rewrite nth_error_map in Hr'. destruct (nth_error D t) as [r|] eqn:E; [|discriminate].
+    simpl in Hr'. inversion Hr'; subst r'. rewrite !csize_map by assumption.
+    destruct (Hg r) as (-> & -> & ->). now apply (Hsz t).
+Qed.
+
+Definition shift_row (d : Q) (x : drow) : drow := (r_left x, r_right x, Qred (r_height x + d), r_size x).
+
+Lemma shift_row_cols d : keeps_cols (shift_row d).
+Proof. intros x. repeat split. Qed.
+
+Lemma cho_shift n D d h c :
+  child_height_ok n D h c = true -> child_height_ok n (map (shift_row d) D) (Qred (h + d)) c = true.
+Proof.
+  unfold child_height_ok. destruct (Nat.ltb c n); [trivial|]. rewrite nth_error_map.
+  destruct (nth_error D (c - n)) as [r|]; [|discriminate]. cbn [option_map].
+  rewrite !Qle_bool_iff. intros H. unfold shift_row, r_height at 1. cbn [fst snd].
+  rewrite !Qred_correct. lra.
+Qed.
+
+Lemma hmono_shift n D d : hmono n D = true -> hmono n (map (shift_row d) D) = true.
+Proof.
+  unfold hmono. rewrite !forallb_forall. intros H r' Hr'. apply in_map_iff in Hr'.
+  destruct Hr' as (r & <- & Hr). specialize (H r Hr). apply andb_true_iff in H. destruct H as [H1 H2].
+  change (r_height (shift_row d r)) with (Qred (r_height r + d)).
+  change (r_left (shift_row d r)) with (r_left r). change (r_right (shift_row d r)) with (r_right r).
+  now rewrite !cho_shift.
+Qed.
+
+Theorem shift_heights_valid : forall n D, valid n D = true -> D <> [] ->
+  exists D', shift_heights D = Ok D' /\ valid n D' = true /\ (hmono n D = true -> hmono n D' = true) /\
+             map (fun r => (r_left r, r_right r, r_size r)) D' = map (fun r => (r_left r, r_right r, r_size r)) D.
+Proof.
+  intros n D Hv Hne. destruct D as [|r rs]; [congruence|].
+  set (m := fold_right (fun x acc => qmin (r_height x) acc) (r_height r) rs).
+  exists (map (shift_row (1 - m)) (r :: rs)). split; [reflexivity|]. split; [|split].
+  - apply wf_valid. apply wf_dend_map; [apply shift_row_cols | now apply valid_wf].
+  - apply hmono_shift.
+  - rewrite map_map. apply map_ext. intros x. reflexivity.
+Qed.
+
+Print Assumptions get_dendrogram_valid.
+Print Assumptions get_dendrogram_legacy_refuted.
+Print Assumptions shift_heights_valid.
+Print Assumptions get_dendrogram_example.
